@@ -359,9 +359,11 @@ violation_groups = uf("dry_violation_groups", [Violations], ViolationGroups, con
 
 
 @contract(BG + "group_blocks_by_file", props=["C03"], types=dict(self=GrouperT, blocks=Blocks), returns=BlockGroups,
-          assumed="plumbing: builds a dict of lists keyed by Path objects (in-place append through a dict lookup; dicts with "
-                  "non-string keys and aliased list values are outside the engine). Assumed: one entry per distinct "
-                  "file_path; the entry of a path is the order-preserving sub-list of the blocks with that path")
+          assumed="REPRESENTATION ONLY: callers iterate the returned dict, which the engine renders as an association list "
+                  "(a dict of aliased lists cannot be a sequence element). What the code computes per key -- the entry of a "
+                  "path is the order-preserving sub-list of the blocks with that FULL path, a path has an entry iff a block "
+                  "has it -- is VERIFIED on the real code by the view group_blocks_by_file~by-full-path below; assumed is "
+                  "only that the association list lists exactly those entries, one per distinct key")
 class GroupBlocksByFile:
     def value(blocks):
         return block_groups(blocks)
@@ -375,8 +377,9 @@ class GroupBlocksByFile:
 
 @contract(BG + "group_violations_by_file", props=["C03"], types=dict(self=GrouperT, violations=Violations),
           returns=ViolationGroups,
-          assumed="plumbing: dict of lists keyed by file path, in-place append through a dict lookup (aliased list values). "
-                  "Assumed: one entry per distinct file_path holding the order-preserving sub-list of its violations")
+          assumed="REPRESENTATION ONLY (see group_blocks_by_file): the per-key content is VERIFIED by the view "
+                  "group_violations_by_file~by-full-path; assumed is only that the association list the callers iterate "
+                  "lists exactly those entries, one per distinct file path")
 class GroupViolationsByFile:
     def value(violations):
         return violation_groups(violations)
@@ -857,3 +860,67 @@ def deduplicate_violations_property(blocks, x):
     use(vdedup_cover, g, blocks, x)
     use(every_violation_has_group, blocks, g, x)
     return implies(x in r, x in blocks) and implies(x in blocks, x in r or v_same_file_cover(x, r))
+
+
+# =================================================================== the groupers VERIFIED through a per-key view
+# The contracts above describe the returned dict as an association list (what the callers iterate over) and are
+# ASSUMED, because a dict of aliased lists cannot be an element of the engine's sequences. The views below verify the
+# real code with the dict modelled as a map (present(k), value(k)): for an ARBITRARY key -- the uninterpreted constant
+# ghost key (an uninterpreted function of a SYMBOLIC argument, so it is never constant-folded to its native stand-in and
+# the clauses hold for every key) -- the entry of that key is exactly the order-preserving sub-list of the
+# input with that key, and the key is present iff some element has it. In particular two blocks land in the same group
+# iff their FULL file_path is equal.
+from pyvc.ty import MapOf  # noqa: E402
+import pathlib as _pathlib  # noqa: E402
+
+ghost_path = uf("dry_ghost_path_key", [Int], PathT, concrete=lambda i: _pathlib.Path("pkg_a/helpers.py"))
+ghost_str = uf("dry_ghost_str_key", [Int], Str, concrete=lambda i: "pkg_a/helpers.py")
+
+
+@contract(BG + "group_blocks_by_file~by-full-path", props=["C03"],
+          types=dict(self=GrouperT, blocks=Blocks, grouped=MapOf(PathT, Blocks), block=CodeBlockT),
+          returns=MapOf(PathT, Blocks))
+class GroupBlocksByFullPath:
+    def ensures_group_of_a_path_is_exactly_its_blocks(blocks, result):
+        return (result[ghost_path(len(blocks))] if ghost_path(len(blocks)) in result else []) == [b for b in blocks if b.file_path == ghost_path(len(blocks))]
+
+    def ensures_path_has_a_group_iff_it_has_a_block(blocks, result):
+        return (ghost_path(len(blocks)) in result) == any(b.file_path == ghost_path(len(blocks)) for b in blocks)
+
+    def witness_same_basename_in_two_directories():
+        # the native stand-in of the ghost key is pkg_a/helpers.py: two of its blocks, one block of a same-named file in
+        # another directory and one of an unrelated file
+        def blk(path, start):
+            return {"file_path": _pathlib.Path(path), "start_line": start, "end_line": start + 2, "snippet": "s", "hash_value": 7}
+        return {"self": {}, "blocks": [blk("pkg_a/helpers.py", 3), blk("pkg_b/helpers.py", 3), blk("pkg_a/helpers.py", 30),
+                                       blk("other.py", 9)]}
+
+    def inv0(blocks, grouped, rest):
+        return [b for b in blocks if b.file_path == ghost_path(len(blocks))] == \
+            (grouped[ghost_path(len(blocks))] if ghost_path(len(blocks)) in grouped else []) + [b for b in rest if b.file_path == ghost_path(len(blocks))] \
+            and any(b.file_path == ghost_path(len(blocks)) for b in blocks) == \
+            (ghost_path(len(blocks)) in grouped or any(b.file_path == ghost_path(len(blocks)) for b in rest))
+
+
+@contract(BG + "group_violations_by_file~by-full-path", props=["C03"],
+          types=dict(self=GrouperT, violations=Violations, grouped=MapOf(Str, Violations), violation=ViolationT),
+          returns=MapOf(Str, Violations))
+class GroupViolationsByFullPath:
+    def ensures_group_of_a_path_is_exactly_its_violations(violations, result):
+        return (result[ghost_str(len(violations))] if ghost_str(len(violations)) in result else []) == [v for v in violations if v.file_path == ghost_str(len(violations))]
+
+    def ensures_path_has_a_group_iff_it_has_a_violation(violations, result):
+        return (ghost_str(len(violations)) in result) == any(v.file_path == ghost_str(len(violations)) for v in violations)
+
+    def witness_same_basename_in_two_directories():
+        def vio(path, line):
+            return {"rule_id": "dry.duplicate-code", "file_path": path, "line": line, "column": 1,
+                    "message": "Duplicate code (3 lines, 2 occurrences)", "severity": "error", "suggestion": None}
+        return {"self": {}, "violations": [vio("pkg_a/helpers.py", 3), vio("pkg_b/helpers.py", 3), vio("pkg_a/helpers.py", 30),
+                                           vio("other.py", 9)]}
+
+    def inv0(violations, grouped, rest):
+        return [v for v in violations if v.file_path == ghost_str(len(violations))] == \
+            (grouped[ghost_str(len(violations))] if ghost_str(len(violations)) in grouped else []) + [v for v in rest if v.file_path == ghost_str(len(violations))] \
+            and any(v.file_path == ghost_str(len(violations)) for v in violations) == \
+            (ghost_str(len(violations)) in grouped or any(v.file_path == ghost_str(len(violations)) for v in rest))
